@@ -74,6 +74,9 @@ func main() {
 			}
 		}()
 		check(c)
+		if extra := extraRules[*prop]; extra != nil {
+			extra(c)
+		}
 	}()
 	c.R.Clauses = append(c.R.Clauses, extraClauses[*prop]...)
 	if *tier == "thorough" {
